@@ -217,7 +217,7 @@ fn run_calls_item(cname: &str, sig: &Sig, site: Site, calls: &[Call], autoescape
                 tally_bound(&mut tally, b);
             }
         }
-        if sample && !sampled && (class == "bound" || i + 1 == calls.len()) {
+        if sample && !sampled && class == "bound" && supplied.len() >= 2 {
             sampled = true;
             acc.sample(|| {
                 let mut d = case();
@@ -969,7 +969,7 @@ fn main() {
         |item, acc: &mut Acc| {
             let sig = &sigs[(item / nsite) as usize];
             let site = sites[(item % nsite) as usize];
-            run_calls_item(COMP, sig, site, &calls, true, acc, item % 97 == 41);
+            run_calls_item(COMP, sig, site, &calls, true, acc, true);
         },
     );
 
@@ -991,7 +991,7 @@ fn main() {
         |item, acc: &mut Acc| {
             let sig = &ne_sigs[(item / nsite) as usize];
             let site = sites[(item % nsite) as usize];
-            run_calls_item("ns.X", sig, site, &ne_calls, false, acc, item % 97 == 5);
+            run_calls_item("ns.X", sig, site, &ne_calls, false, acc, true);
         },
     );
 
@@ -1186,9 +1186,9 @@ fn main() {
                             (Out::Ok(s), false) => {
                                 let want = format!("{}|{}", t1.as_ref().unwrap(), t2.as_ref().unwrap());
                                 if *s != want {
-                                    let second_differs = !s.starts_with(&format!("{}|", t1.as_ref().unwrap()));
+                                    let first_differs = !s.starts_with(&format!("{}|", t1.as_ref().unwrap()));
                                     acc.violation(
-                                        format!("pair-text:{}", if second_differs { "first-call" } else { "second-call" }),
+                                        format!("pair-text:{}", if first_differs { "first-call" } else { "second-call" }),
                                         format!("rendered {s:?}, expected {want:?}"),
                                         &case,
                                     );
